@@ -84,8 +84,11 @@ fn gen_member(rng: &mut Rng, method: bool, id: u32) -> AMember {
 	// few names, several descriptors: the key is the pair
 	let name = format!("{}{}", if method { "m" } else { "f" }, id / 2);
 	let desc = if method { descs_m[(id % 2) as usize + rng.below(2)] } else { descs_f[(id % 2) as usize * 2 + rng.below(2)] };
-	AMember { name, desc: desc.to_owned(), access: *rng.pick(&[0x0001u16, 0x0002, 0x0009, 0x0010, 0x0019]), depr: rng.chance(1, 8), synth: rng.chance(1, 8),
-		inv: gen_anns(rng), vis: if rng.chance(1, 5) { gen_anns(rng) } else { vec![] }, payload: if rng.chance(1, 2) { Some(rng.below(100) as i8) } else { None } }
+	let payload = if rng.chance(1, 2) { Some(rng.below(100) as i8) } else { None };
+	// a method without Code is abstract or native, one with Code is neither
+	let access = if method && payload.is_none() { *rng.pick(&[0x0401u16, 0x0101, 0x0404, 0x0109]) } else { *rng.pick(&[0x0001u16, 0x0002, 0x0009, 0x0010, 0x0019]) };
+	AMember { name, desc: desc.to_owned(), access, depr: rng.chance(1, 8), synth: rng.chance(1, 8),
+		inv: gen_anns(rng), vis: if rng.chance(1, 5) { gen_anns(rng) } else { vec![] }, payload }
 }
 
 /// two member lists whose key orders are related as list_pair says; shared keys carry equal or differing bodies
@@ -101,8 +104,8 @@ fn member_lists(rng: &mut Rng, method: bool, twist: Twist) -> (Vec<AMember>, Vec
 	for m in cb.iter_mut() {
 		if !a.iter().any(|&i| proto[i as usize].name == m.name && proto[i as usize].desc == m.desc) { continue; }
 		match rng.below(6) {
-			0 => m.access ^= 0x0010,
-			1 => m.payload = Some(rng.below(50) as i8 - 100),
+			0 => m.access ^= if method && m.payload.is_none() { 0x0004 } else { 0x0010 },
+			1 => if m.payload.is_some() || !method { m.payload = Some(rng.below(50) as i8 - 100) },
 			2 => m.inv.push(AAnn::Other("ann/S".into())),
 			3 => m.vis.push(AAnn::Other("ann/V".into())),
 			_ => {}
